@@ -75,8 +75,8 @@ def _live(chk, name, out):
     return live["mismatches"]
 
 
-def vote_consts(nq, nt, per, none, sym=False, only="all"):
-    return {"Mode": "enum", "NQ": nq, "NT": nt, "PerPair": per, "WithNone": none, "Sym": sym, "Only": only}
+def vote_consts(nq, nt, per, none, sym=False, only="all", qbase=100):
+    return {"Mode": "enum", "NQ": nq, "NT": nt, "PerPair": per, "WithNone": none, "Sym": sym, "Only": only, "QBase": qbase}
 
 
 def asg_consts(nr, nc, grid, dp):
@@ -87,10 +87,13 @@ def voting_engines(chk, quick):
     """top-N and best-fit: generation + replay"""
     if quick:
         runs = [("vote-2x2x2", vote_consts(2, 2, 2, False)),
-                ("vote-2x3x1", vote_consts(2, 3, 1, True, only="none_or_last"))]
+                ("vote-2x3x1", vote_consts(2, 3, 1, True, only="none_or_last")),
+                # query ids and track ids from one id space (query 2 and track 2 are different things)
+                ("vote-3x2x1-overlap", vote_consts(3, 2, 1, False, qbase=0))]
     else:
         runs = [("vote-2x3x2", vote_consts(2, 3, 2, False, sym=True)),
-                ("vote-2x3x1-none", vote_consts(2, 3, 1, True, only="none"))]
+                ("vote-2x3x1-none", vote_consts(2, 3, 1, True, only="none")),
+                ("vote-3x3x1-overlap", vote_consts(3, 3, 1, False, qbase=0))]
     first = None
     for name, consts in runs:
         r = _gen(chk, "GenV.tla", name, consts, timeout=1500)
@@ -98,7 +101,7 @@ def voting_engines(chk, quick):
         first = first or r.out
     for w in ("W_NeverContested", "W_NeverCut"):
         _witness(chk, "GenV.tla", w, vote_consts(2, 2, 1, False))
-    sim = {"Mode": "sim", "NQ": 6, "NT": 6, "PerPair": 5, "WithNone": True, "Sym": False, "Only": "all"}
+    sim = {"Mode": "sim", "NQ": 6, "NT": 6, "PerPair": 5, "WithNone": True, "Sym": False, "Only": "all", "QBase": 100}
     r = _gen(chk, "GenV.tla", "vote-sim-6x6x5", sim, simulate={"num": 10 if quick else 400, "depth": 340}, timeout=900)
     _replay(chk, "vote-sim-6x6x5", r.out)
     return _live(chk, "vote", first)
